@@ -45,26 +45,36 @@ CL_DELEG = "C20.delegation_lookup"
 CL_CONTENT = "C20.content_matches_history"
 
 BOUNDS = (
-    "Real dns.btreezone.Zone (relativized and absolute, origin example.) against a documentation-derived "
-    "oracle after every committed transaction: node flags (ORIGIN/DELEGATION/GLUE exactly), delegation index "
-    "== Cuts, canonical iteration order, content == a replace/add/delete model of the history, "
-    "Delegations.get_delegation for every query name, and ImmutableVersion.bounds (left, right, closest "
-    "encloser, is_delegation, is_equal) for every query name of a closed pool: all names of <= 3 labels over "
-    "7 label values (the 3 used in zones plus their 4 neighbours in canonical order, 400 names) plus, for "
-    "every owner in the zone, the owner and 3 children; bounds are evaluated once per distinct derived state. "
-    "EXHAUSTIVE: (L) every load order of 3 six-record sets (nested cuts, TXT at a cut, glue, apex NS, "
-    "empty non-terminals; 720 orders each) x {zone text via dns.zone.from_text, one replacement transaction, "
-    "one transaction per record} x {relativized, absolute}; (T) the closure of all derived states reachable "
-    "by transactions that toggle one record slot, or two slots in one transaction, over a slot universe "
-    "(quick: 7 slots, thorough: two universes of 8 slots incl. a 4-label name), histories replayed from an "
-    "empty zone, failing states not expanded. SEEDED: (S) histories of <= 25 transactions of 1-4 operations "
-    "(replace/add/delete rdataset/delete name/delete rdata; NS, A, TXT; relative or absolute owner spelling, "
-    "mixed case) over a per-history pool of <= 14 owners drawn from names of <= 4 labels, random initial load "
-    "order via text or transaction, occasional rollbacks and full replacements, three families (free; no "
-    "nested NS owners; no nested NS owners and no non-NS change at an existing cut) - quick ~150 histories, "
-    "thorough until ~8 min. Not covered: anything needing the cryptography package (none of this property "
-    "does), other rdata classes, origins other than example., zones without an apex node at query time, "
-    "concurrent readers/writers (C11/C12)."
+    "Real dns.btreezone.Zone (relativized and absolute, origin example., class IN) driven through "
+    "dns.zone.from_text(zone_factory=...) and writer()/writer(True) transactions, against an oracle written "
+    "from the documentation (apex -> ORIGIN; Cuts = non-apex NS owners not beneath another non-apex NS owner "
+    "-> DELEGATION + index entry; names strictly beneath a member of Cuts -> GLUE; RFC 4034 canonical order "
+    "computed on label tuples, independent of dns.name). After every committed transaction: every node's "
+    "flags, the delegation index, the iteration order, the content against a replace/add/delete model of the "
+    "history; and, once per distinct derived state, Delegations.get_delegation and ImmutableVersion.bounds "
+    "(left, right, closest encloser, is_delegation, is_equal, name) for every query of a closed pool: all "
+    "names of <= 3 labels over 7 label values (the 3 used in zones and their 4 canonical-order neighbours; "
+    "400 names) plus every owner in the zone and 3 children of it (quick: the seeded part samples 100 of the "
+    "400). A history stops at its first version with wrong flags/index/order/content; bounds mismatches do "
+    "not stop it. EXHAUSTIVE: (L) every load order of six-record sets (nested cuts with a TXT at the cut, "
+    "glue and an apex NS; three nested NS owners with glue at each level; cuts under an empty non-terminal "
+    "with a two-rdata NS rrset) as zone text, as one replacement transaction, and as one transaction per "
+    "record - quick: set 1 (720 orders) as text/relativized, one-transaction/absolute, per-record in both "
+    "relativities, sets 2 and 3 with 5 records (120 orders) in two mode/relativity combinations each; "
+    "thorough: 3 sets x 720 orders x 3 modes x 2 relativities. (T) the closure of all contents reachable by "
+    "transactions that toggle one record slot (replace/add to create, delete-rdataset/delete-name to remove) "
+    "or two slots in one transaction, every history replayed from an empty zone and states with a wrong "
+    "derived state not expanded - quick: 6 slots with pairs (relativized, 64 contents) and 7 slots single "
+    "(absolute, 128 contents); thorough: two universes of 8 slots (one with a 4-label owner), pairs, both "
+    "relativities (4 x 256 contents, ~73k histories). SEEDED: (S) histories of 3-25 transactions of 1-4 "
+    "operations (replace, add, delete rdataset, delete name, delete one rdata; NS/A/TXT; owner spelled "
+    "relative or absolute, sometimes upper-case) over a per-history pool of <= 14 owners of <= 4 labels, "
+    "initial load of 0-8 records in random order by text or by transaction, 8% rollbacks, 4% full "
+    "replacements, in three families (free; never an NS owner above/below another; additionally no non-NS "
+    "change at an existing cut) - quick 150 histories, thorough until 470 s (~30k versions). Not covered: "
+    "zones whose apex node is absent at query time (bounds not evaluated there), classes other than IN, "
+    "other origins, concurrent readers/writers (C11/C12), a first non-replacement writer() on a fresh zone "
+    "(F11, C10). Nothing in this property needs the cryptography package, so its absence costs no coverage."
 )
 
 ORIGIN = dns.name.from_text("example.")
@@ -621,12 +631,17 @@ def replay(data):
     h = run_history(script, memo=set(), qpool=None)
     if not h.fails:
         return False, f"history of {len(script['txns'])} transactions: derived state and bounds match the oracle"
-    want = (data.get("clause"), data.get("check"), data.get("context", ""))
-    for f in h.fails:
-        if (f[0], f[1], f[2]) == want:
-            return True, f"{f[0]} {f[1]} {f[2]}: {f[3]}"[:500]
-    f = h.fails[0]
-    return True, f"(different check) {f[0]} {f[1]} {f[2]}: {f[3]}"[:500]
+    want = (data.get("clause"), data.get("check"))
+    same = [f for f in h.fails if (f[0], f[1]) == want]
+    exact = [f for f in same if f[2] == data.get("context", "")]
+    if exact or same:
+        f = (exact or same)[0]
+        return True, f"{f[0]} {f[1]} {f[2]}: {f[3]}"[:500]
+    if want == (None, None):
+        f = h.fails[0]
+        return True, f"{f[0]} {f[1]} {f[2]}: {f[3]}"[:500]
+    others = sorted({f"{f[1]}" for f in h.fails})
+    return False, f"the recorded check {want[1]!r} no longer fails on this history (other checks that fail: {others})"
 
 
 def count_cases(R, h, tag, key, bounds_done=True):
